@@ -29,7 +29,7 @@ struct DtxSim {
   double gap_eG = 0, gap_eP = 0; long gap_n = 0;
   double post_eG = 0, post_eR = 0; long post_n = 0; int64_t post_from48 = -1;
   bool drop_next = false; int64_t lost_recent48 = -1, last_tiny48 = -1, last_loss48 = -1;
-  bool ever_nonsilent = false, run_started_before_any_sound = false;
+  bool ever_nonsilent = false, ever_loud = false, run_started_before_any_sound = false;
   explicit DtxSim(Run &r) : run(r) {}
 
   void op_encnew(const Op &op) {
@@ -97,7 +97,8 @@ struct DtxSim {
       silence_start48 = -1;
     }
     if (loud) loud_run48 += d48; else loud_run48 = 0;
-    bool was_ever_nonsilent = ever_nonsilent; if (!silent) ever_nonsilent = true; (void)was_ever_nonsilent;
+    if (!silent) ever_nonsilent = true;
+    if (loud) ever_loud = true;
     prev_loud = loud;
     Bytes pkt, rpkt;
     int ret = S.enc.encode(pcm.data(), frame, max_bytes, fmt, pkt);
@@ -132,12 +133,13 @@ struct DtxSim {
         // ---- O3: the in-DTX query is true on every DTX packet
         if (in_dtx != 1) REPORT(run, prop, "in_dtx_false_on_dtx_packet", "ret=%d in_dtx=%d t=%.0fms frame_ms=%.1f cplx=%d fs=%d", ret, in_dtx, t0 / 48.0, d48 / 48.0, m_complexity, L.fs);
         // ---- O2: run bound in every configuration
-        if (tiny_run_pkts == 0) { run_started_before_any_sound = !ever_nonsilent; run_dmax48 = 0; }
+        if (tiny_run_pkts == 0) { run_started_before_any_sound = !ever_loud; run_dmax48 = 0; }
         tiny_run48 += d48; tiny_run_pkts++; run_dmax48 = std::max(run_dmax48, d48);
         if (tiny_run48 >= 400 * MS + run_dmax48) {
-          // known mechanism: the stream started with digital silence (the tonality analysis never became valid), the Opus-level
-          // DTX run ends on the first non-silent frame and SILK's own, unsynchronised DTX counter carries on
-          bool handover = run_started_before_any_sound && !silent && analysis_cfg;
+          // known mechanism: nothing audible has been fed yet (digital silence, or input far below the activity threshold), so the tonality
+          // analysis has never become valid; whenever the input flips between exact silence and not-quite-silence the DTX decision is
+          // handed over between the Opus-level counter and SILK's own, unsynchronised one, and the run is not refreshed in time
+          bool handover = run_started_before_any_sound && analysis_cfg;
           REPORT(run, prop, handover ? "dtx_run_too_long_initial_silence_handover" : "dtx_run_too_long", "run of %d tiny packets lasts %.1f ms (longest frame %.1f ms) cplx=%d fs=%d", tiny_run_pkts, tiny_run48 / 48.0, run_dmax48 / 48.0, m_complexity, L.fs);
         }
         if (run.stat["max:dtx_run_ms"] < tiny_run48 / 48) run.stat["max:dtx_run_ms"] = tiny_run48 / 48;
